@@ -11,7 +11,8 @@
             (1, b, []) `c if (c as u32) < b => out.push_str(&format!("\\u{:04x}", c as u32))`
             (2, 0, []) `c => out.push(c)`
       cli_json_formats : list (list (list N))   every print!/println!/format! literal of player.rs
-            that writes JSON (contains an escaped quote or `{{`), in source order, split at its holes
+            that writes JSON (contains an escaped quote or `{{`) or the divert error text, in
+            source order, split at its holes
       cli_join_seps : list (list N)             the literals of `.join("..")`, in source order
       cli_divert_mode : N   how the failed-divert `issues` line interpolates its arguments:
             0  path raw, error text with only `"` replaced        1  whole message through escape_json_string
@@ -294,7 +295,7 @@ def gen_cli():
         if not toks or toks[0][0] != "str" or toks[0][1] != 0:
             continue
         rawlit = src[m.end():m.end() + toks[0][2]]
-        if '\\"' in rawlit or "{{" in rawlit:
+        if '\\"' in rawlit or "{{" in rawlit or "diverting to" in rawlit:
             formats.append(split_format(toks[0][3]))
     for m in re.finditer(r"\.join\(\s*", src):
         toks = list(rust_scan(src[m.end():m.end() + 100]))
